@@ -2,9 +2,11 @@
 
 // C19: LEB128 (internal/wasm/leb128). Three exhaustive sweeps on the real functions:
 //
-//	A  every one of the 2^32 values through EncodeUint32/LoadUint32/DecodeUint32 and
-//	   EncodeInt32/LoadInt32/DecodeInt32 (+ DecodeInt33AsInt64 on the same bytes): the bytes equal
+//	A  32-bit values through EncodeUint32/LoadUint32/DecodeUint32 and EncodeInt32/LoadInt32/
+//	   DecodeInt32 (+ DecodeInt33AsInt64, LoadInt64, DecodeInt64 on the s32 bytes): the bytes equal
 //	   the minimal reference encoding, both entry points give the value back with the byte count.
+//	   thorough: every one of the 2^32 values; quick: every value below 2^28 plus a structured set
+//	   over the whole range (see part A).
 //	B  the structured 64-bit / 33-bit value set (ten 7-bit groups from a boundary alphabet, plus
 //	   +-2^k+-{0,1,2}; thorough: every s33 value outside the s32 range) through EncodeUint64 /
 //	   EncodeInt64 / LoadInt64 / DecodeInt64 / DecodeInt33AsInt64.
@@ -26,7 +28,6 @@ import (
 	"math/bits"
 	"os"
 	"runtime/debug"
-	"runtime/pprof"
 	"sort"
 	"strings"
 	"sync"
@@ -498,6 +499,9 @@ func (w *wk) done(r *mc.Run) {
 
 var capped atomic.Bool
 
+// quickBits: the quick tier's contiguous part-A range is [0, 2^quickBits) (see part A)
+const quickBits = 28
+
 func capHit(r *mc.Run, what string) {
 	capped.Store(true)
 	r.Cap(what)
@@ -634,21 +638,101 @@ func (w *wk) encCheck(fn int, val uint64, got, want []byte) {
 	w.ws.offer(vkey{uint8(fn), uint8(kind), 0, uint8(len(want))}, want, func(c *cand) { c.gotBytes, c.want.val = g, val })
 }
 
-// rt: enc is the (reference-checked) encoding of val; the decoder must give it back.
+// rt: enc is the reference encoding of val; the decoder must give it back.
 func (w *wk) rt(fn int, val uint64, enc []byte, got uint64, n uint64, err error, consumed int) {
 	w.judge(fn, enc, verdict{n: len(enc), val: val}, got, n, err, consumed)
 }
 
-// partA: every 32-bit value through EncodeUint32 and EncodeInt32. The decoders (LoadUint32,
-// DecodeUint32, LoadInt32, DecodeInt32, DecodeInt33AsInt64 and - an s32 form is an s64 form -
-// LoadInt64, DecodeInt64 on the s32 bytes) run on the encoder's output for every value when
-// decodeAll is set (thorough), otherwise for every value whose lowest 7-bit group is in
-// decodeGroups (all lengths, all 2^25 upper parts). Each call allocates inside the package under
-// test (result slice, interface boxing), about 30 ns apiece: nine calls x 2^32 values is
-// thorough-tier money.
-func partA(r *mc.Run, decodeAll bool, decodeGroups []byte) {
+// Part A runs 32-bit values through EncodeUint32 / EncodeInt32 and their reference bytes through
+// the decoders. Every call allocates inside the package under test (result slice, interface
+// boxing: 30-60 ns apiece on the verification host), so the tiers are:
+//
+//	thorough  every one of the 2^32 values, all nine calls (incl. DecodeInt33AsInt64, LoadInt64,
+//	          DecodeInt64 on the s32 bytes: an s32 form is an s33 and an s64 form)
+//	quick     every value below 2^quickBits unsigned / every signed value with zigzag index below
+//	          2^quickBits (quickBits = 28: every 1..4-byte form), encoders on all of them, decoders
+//	          on those whose lowest group is in the boundary alphabet; plus the structured set over
+//	          the whole 32-bit range: every bit pattern in which at most two of the four low 7-bit
+//	          groups lie outside the boundary alphabet (top 4 bits free), all nine calls.
+
+type aStage struct {
+	cur   uint32
+	s     int32
+	stage int
+}
+
+// value32 checks one unsigned value x and one signed value s.
+func (w *wk) value32(st *aStage, ref *[10]byte, x uint32, s int32, decU, decS, dec64 bool) {
+	st.cur, st.s = x, s
+	// ---- unsigned. The decoders are fed the reference bytes (identical to the encoder's output
+	// unless the encoder has just been reported), so an encoder defect is not also blamed on the
+	// decoders.
+	st.stage = fEncU32
+	e := leb128.EncodeUint32(x)
+	L := refU(uint64(x), ref)
+	w.encCheck(fEncU32, uint64(x), e, ref[:L])
+	if decU {
+		e = ref[:L]
+		if o := fastU(32, e); o.why != whyOK || o.val != uint64(x) || o.n != L {
+			harness(w, e, fmt.Sprintf("reference encoding [%s] of %d is not derived as that value by the u32 grammar: %+v", hexs(e), x, o))
+		}
+		st.stage = fLoadU32
+		v, n, err := leb128.LoadUint32(e)
+		w.rt(fLoadU32, uint64(x), e, uint64(v), n, err, -1)
+		st.stage = fDecU32
+		w.rd.b, w.rd.i = e, 0
+		v, n, err = leb128.DecodeUint32(&w.rd)
+		w.rt(fDecU32, uint64(x), e, uint64(v), n, err, w.rd.i)
+	}
+
+	// ---- signed
+	sb := uint64(int64(s))
+	st.stage = fEncS32
+	e = leb128.EncodeInt32(s)
+	L = refS(int64(s), ref)
+	w.encCheck(fEncS32, sb, e, ref[:L])
+	if decS {
+		e = ref[:L]
+		if o := fastS(32, e); o.why != whyOK || o.val != sb || o.n != L {
+			harness(w, e, fmt.Sprintf("reference encoding [%s] of %d is not derived as that value by the s32 grammar: %+v", hexs(e), s, o))
+		}
+		st.stage = fLoadS32
+		sv, n, err := leb128.LoadInt32(e)
+		w.rt(fLoadS32, sb, e, uint64(int64(sv)), n, err, -1)
+		st.stage = fDecS32
+		w.rd.b, w.rd.i = e, 0
+		sv, n, err = leb128.DecodeInt32(&w.rd)
+		w.rt(fDecS32, sb, e, uint64(int64(sv)), n, err, w.rd.i)
+		st.stage = fDecS33
+		w.rd.b, w.rd.i = e, 0
+		lv, n, err := leb128.DecodeInt33AsInt64(&w.rd)
+		w.rt(fDecS33, sb, e, uint64(lv), n, err, w.rd.i)
+		if dec64 {
+			st.stage = fLoadS64
+			lv, n, err = leb128.LoadInt64(e)
+			w.rt(fLoadS64, sb, e, uint64(lv), n, err, -1)
+			st.stage = fDecS64
+			w.rd.b, w.rd.i = e, 0
+			lv, n, err = leb128.DecodeInt64(&w.rd)
+			w.rt(fDecS64, sb, e, uint64(lv), n, err, w.rd.i)
+		}
+	}
+}
+
+func (st *aStage) recovered(r *mc.Run, w *wk, e interface{}) {
+	capHit(r, "panic(partA)")
+	var b [4]byte
+	b[0], b[1], b[2], b[3] = byte(st.cur>>24), byte(st.cur>>16), byte(st.cur>>8), byte(st.cur)
+	w.ws.offer(vkey{uint8(st.stage), kPanic, 0, 0}, b[:], func(c *cand) {
+		c.note = fmt.Sprintf("while checking u32 value %d / s32 value %d: %v", st.cur, st.s, e)
+	})
+}
+
+// partA: the contiguous range. Unsigned values ascending, signed values in zigzag order
+// 0, -1, 1, -2, ... (simplest first for both codecs).
+func partA(r *mc.Run, bitsN int, decodeAll bool, decodeGroups []byte) {
 	const chunkBits = 20
-	nchunks := 1 << (32 - chunkBits)
+	nchunks := 1 << (bitsN - chunkBits)
 	if s := os.Getenv("C19_A_CHUNKS"); s != "" { // development aid: first n chunks of 2^20 values only
 		fmt.Sscan(s, &nchunks)
 		capHit(r, "C19_A_CHUNKS="+s)
@@ -657,7 +741,7 @@ func partA(r *mc.Run, decodeAll bool, decodeGroups []byte) {
 	for _, g := range decodeGroups {
 		sel[g] = true
 	}
-	var total, totalRd atomic.Int64
+	var total, totalRd, totalRdU atomic.Int64
 	mc.ParallelFor(nchunks, func(ci int) {
 		if r.Expired() {
 			capHit(r, "deadline(partA)")
@@ -665,78 +749,111 @@ func partA(r *mc.Run, decodeAll bool, decodeGroups []byte) {
 		}
 		w := newWk()
 		defer w.done(r)
-		var cur uint32
-		stage := 0
+		var st aStage
 		defer func() {
 			if e := recover(); e != nil {
-				capHit(r, "panic(partA)")
-				var b [4]byte
-				b[0], b[1], b[2], b[3] = byte(cur>>24), byte(cur>>16), byte(cur>>8), byte(cur)
-				w.ws.offer(vkey{uint8(stage), kPanic, 0, 0}, b[:], func(c *cand) { c.note = fmt.Sprintf("on 32-bit value bits 0x%08x: %v", cur, e) })
+				st.recovered(r, w, e)
 			}
 		}()
 		var ref [10]byte
-		nrd := int64(0)
+		nrd, nrdU := int64(0), int64(0)
 		base := uint32(ci) << chunkBits
 		for o := uint32(0); o < 1<<chunkBits; o++ {
 			x := base + o
-			cur = x
-			dec := decodeAll || sel[x&0x7f]
-
-			// ---- unsigned
-			stage = fEncU32
-			e := leb128.EncodeUint32(x)
-			L := refU(uint64(x), &ref)
-			w.encCheck(fEncU32, uint64(x), e, ref[:L])
-			if dec {
-				stage = fLoadU32
-				v, n, err := leb128.LoadUint32(e)
-				w.rt(fLoadU32, uint64(x), e, uint64(v), n, err, -1)
-				stage = fDecU32
-				w.rd.b, w.rd.i = e, 0
-				v, n, err = leb128.DecodeUint32(&w.rd)
-				w.rt(fDecU32, uint64(x), e, uint64(v), n, err, w.rd.i)
+			s := int32(x>>1) ^ -int32(x&1)
+			decU := decodeAll || sel[x&0x7f]
+			decS := decodeAll || sel[uint32(s)&0x7f]
+			if decU {
+				nrdU++
 			}
-
-			// ---- signed
-			s := int32(x)
-			sb := uint64(int64(s))
-			stage = fEncS32
-			e = leb128.EncodeInt32(s)
-			L = refS(int64(s), &ref)
-			w.encCheck(fEncS32, sb, e, ref[:L])
-			if dec {
+			if decS {
 				nrd++
-				stage = fLoadS32
-				sv, n, err := leb128.LoadInt32(e)
-				w.rt(fLoadS32, sb, e, uint64(int64(sv)), n, err, -1)
-				stage = fDecS32
-				w.rd.b, w.rd.i = e, 0
-				sv, n, err = leb128.DecodeInt32(&w.rd)
-				w.rt(fDecS32, sb, e, uint64(int64(sv)), n, err, w.rd.i)
-				stage = fDecS33
-				w.rd.b, w.rd.i = e, 0
-				lv, n, err := leb128.DecodeInt33AsInt64(&w.rd)
-				w.rt(fDecS33, sb, e, uint64(lv), n, err, w.rd.i)
-				if decodeAll {
-					stage = fLoadS64
-					lv, n, err = leb128.LoadInt64(e)
-					w.rt(fLoadS64, sb, e, uint64(lv), n, err, -1)
-					stage = fDecS64
-					w.rd.b, w.rd.i = e, 0
-					lv, n, err = leb128.DecodeInt64(&w.rd)
-					w.rt(fDecS64, sb, e, uint64(lv), n, err, w.rd.i)
-				}
 			}
-			if ci == 0 && (o == 127 || o == 128) && r.WantSample() {
-				r.Sample(map[string]interface{}{"part": "A", "value": x, "EncodeUint32": hexs(leb128.EncodeUint32(x)), "as_int32": -int32(x), "EncodeInt32": hexs(leb128.EncodeInt32(-int32(x)))})
+			w.value32(&st, &ref, x, s, decU, decS, decodeAll)
+			if ci == 0 && (o == 127 || o == 128) {
+				r.Sample(map[string]interface{}{"part": "A", "value_u32": x, "EncodeUint32": hexs(leb128.EncodeUint32(x)), "value_s32": s, "EncodeInt32": hexs(leb128.EncodeInt32(s))})
 			}
 		}
 		total.Add(1 << chunkBits)
 		totalRd.Add(nrd)
+		totalRdU.Add(nrdU)
 	})
-	r.Extra("partA_values_encoded", total.Load())
-	r.Extra("partA_values_decoded", totalRd.Load())
+	r.Extra("partA_range_values_encoded_each_codec", total.Load())
+	r.Extra("partA_range_values_decoded_u32", totalRdU.Load())
+	r.Extra("partA_range_values_decoded_s32", totalRd.Load())
+}
+
+// partAStructured: every 32-bit pattern p = t<<28 | g3<<21 | g2<<14 | g1<<7 | g0 in which at most
+// two of g0..g3 lie outside the boundary alphabet (t: all 16 values); the unsigned value is p, the
+// signed value int32(p). Each pattern is visited once: a job fixes t and WHICH groups are outside.
+func partAStructured(r *mc.Run, alphabet []byte) {
+	var in, out []uint32
+	var isIn [128]bool
+	for _, g := range alphabet {
+		isIn[g] = true
+	}
+	for g := uint32(0); g < 128; g++ {
+		if isIn[g] {
+			in = append(in, g)
+		} else {
+			out = append(out, g)
+		}
+	}
+	type job struct {
+		t    uint32
+		mask int // bit k set: group k ranges over `out`, else over `in`
+	}
+	var jobs []job
+	for mask := 0; mask < 16; mask++ {
+		if bits.OnesCount(uint(mask)) > 2 {
+			continue
+		}
+		for t := uint32(0); t < 16; t++ {
+			jobs = append(jobs, job{t, mask})
+		}
+	}
+	var total atomic.Int64
+	mc.ParallelFor(len(jobs), func(ji int) {
+		if r.Expired() {
+			capHit(r, "deadline(partA-structured)")
+			return
+		}
+		j := jobs[ji]
+		w := newWk()
+		defer w.done(r)
+		var st aStage
+		defer func() {
+			if e := recover(); e != nil {
+				st.recovered(r, w, e)
+			}
+		}()
+		var ref [10]byte
+		var sets [4][]uint32
+		for k := 0; k < 4; k++ {
+			sets[k] = in
+			if j.mask>>uint(k)&1 == 1 {
+				sets[k] = out
+			}
+		}
+		n := int64(0)
+		for _, g3 := range sets[3] {
+			for _, g2 := range sets[2] {
+				for _, g1 := range sets[1] {
+					for _, g0 := range sets[0] {
+						p := j.t<<28 | g3<<21 | g2<<14 | g1<<7 | g0
+						w.value32(&st, &ref, p, int32(p), true, true, true)
+						n++
+					}
+				}
+			}
+		}
+		total.Add(n)
+		if j.t == 15 && j.mask == 0 {
+			p := uint32(0xf<<28 | 0x7f<<21 | 0x40<<14 | 0x3f<<7 | 0x01)
+			r.Sample(map[string]interface{}{"part": "A-structured", "pattern": fmt.Sprintf("0x%08x", p), "EncodeUint32": hexs(leb128.EncodeUint32(p)), "value_s32": int32(p), "EncodeInt32": hexs(leb128.EncodeInt32(int32(p)))})
+		}
+	})
+	r.Extra("partA_structured_patterns", total.Load())
 }
 
 // ---------------------------------------------------------------------------------------------
@@ -759,6 +876,7 @@ func (w *wk) checkValue64(x uint64) {
 	e = leb128.EncodeInt64(s)
 	L = refS(s, &ref)
 	w.encCheck(fEncS64, x, e, ref[:L])
+	e = ref[:L]
 	if v := fastS(64, ref[:L]); v.why != whyOK || v.val != x || v.n != L {
 		harness(w, ref[:L], fmt.Sprintf("reference encoding [%s] of %d is not derived as that value by the s64 grammar: %+v", hexs(ref[:L]), s, v))
 	}
@@ -777,12 +895,16 @@ func (w *wk) checkValue33(y int64) {
 	e := leb128.EncodeInt64(y)
 	L := refS(y, &ref)
 	w.encCheck(fEncS64, uint64(y), e, ref[:L])
+	e = ref[:L]
+	if o := fastS(33, e); o.why != whyOK || o.val != uint64(y) || o.n != L {
+		harness(w, e, fmt.Sprintf("reference encoding [%s] of %d is not derived as that value by the s33 grammar: %+v", hexs(e), y, o))
+	}
 	w.rd.b, w.rd.i = e, 0
 	v, n, err := leb128.DecodeInt33AsInt64(&w.rd)
 	w.rt(fDecS33, uint64(y), e, uint64(v), n, err, w.rd.i)
 }
 
-func partB(r *mc.Run, groups []byte, all33 bool) {
+func partB(r *mc.Run, groups []byte) {
 	G := len(groups)
 	// the three most significant digits choose the job, the low seven are looped inside
 	njobs := G * G * G
@@ -828,7 +950,7 @@ func partB(r *mc.Run, groups []byte, all33 bool) {
 					x := uint64(sgn*(int64(1)<<uint(k)) + d) // wraps mod 2^64 for k = 63: intended
 					w.checkValue64(x)
 					cnt++
-					if k == 32 && r.WantSample() {
+					if k == 32 && sgn == -1 && d == -1 {
 						r.Sample(map[string]interface{}{"part": "B", "value_s64": int64(x), "EncodeInt64": hexs(leb128.EncodeInt64(int64(x))),
 							"value_u64": x, "EncodeUint64": hexs(leb128.EncodeUint64(x)), "low33_signed": sext33(x & (1<<33 - 1))})
 					}
@@ -840,32 +962,34 @@ func partB(r *mc.Run, groups []byte, all33 bool) {
 	}
 	r.Extra("partB_structured_values", nvals.Load())
 
-	if all33 {
-		// every s33 value outside the s32 range (the s32 half went through DecodeInt33AsInt64 in part A)
-		const chunkBits = 20
-		var n33 atomic.Int64
-		mc.ParallelFor(1<<(32-chunkBits), func(ci int) {
-			if r.Expired() {
-				capHit(r, "deadline(partB-s33)")
-				return
+}
+
+// partB33: every s33 value outside the s32 range (thorough; last, being the least essential).
+func partB33(r *mc.Run) {
+	// every s33 value outside the s32 range (the s32 half went through DecodeInt33AsInt64 in part A)
+	const chunkBits = 20
+	var n33 atomic.Int64
+	mc.ParallelFor(1<<(32-chunkBits), func(ci int) {
+		if r.Expired() {
+			capHit(r, "deadline(partB-s33)")
+			return
+		}
+		w := newWk()
+		defer w.done(r)
+		base := uint64(ci) << chunkBits
+		for o := uint64(0); o < 1<<chunkBits; o++ {
+			u := base + o // 0 .. 2^32-1
+			var y int64
+			if u < 1<<31 {
+				y = int64(1)<<31 + int64(u) // [2^31, 2^32)
+			} else {
+				y = -(int64(1) << 32) + int64(u-1<<31) // [-2^32, -2^31)
 			}
-			w := newWk()
-			defer w.done(r)
-			base := uint64(ci) << chunkBits
-			for o := uint64(0); o < 1<<chunkBits; o++ {
-				u := base + o // 0 .. 2^32-1
-				var y int64
-				if u < 1<<31 {
-					y = int64(1)<<31 + int64(u) // [2^31, 2^32)
-				} else {
-					y = -(int64(1) << 32) + int64(u-1<<31) // [-2^32, -2^31)
-				}
-				w.checkValue33(y)
-			}
-			n33.Add(1 << chunkBits)
-		})
-		r.Extra("partB_s33_values_outside_s32", n33.Load())
-	}
+			w.checkValue33(y)
+		}
+		n33.Add(1 << chunkBits)
+	})
+	r.Extra("partB_s33_values_outside_s32", n33.Load())
 }
 
 // ---------------------------------------------------------------------------------------------
@@ -893,7 +1017,6 @@ func runCJob(r *mc.Run, j cjob) {
 			w.ws.offer(vkey{uint8(j.d.decFn), kPanic, 0, 0}, b, func(c *cand) { c.note = fmt.Sprintf("on [%s] (%s): %v", hexs(b), j.d.name, e) })
 		}
 	}()
-	sampled := false
 	n := int64(0)
 	for {
 		for k := 1; k < j.L-1; k++ {
@@ -904,12 +1027,6 @@ func runCJob(r *mc.Run, j cjob) {
 			w.checkString(j.d, b, j.withBig)
 		}
 		n += 256
-		if !sampled && j.L >= 3 && j.first == 7 && r.WantSample() {
-			sampled = true
-			b[j.L-1] = 0x40
-			v := specFast(j.d.N, j.d.signed, b)
-			r.Sample(map[string]interface{}{"part": "C", "codec": j.d.name, "bytes": hexs(b), "spec": whyName[v.why], "spec_count": v.n, "spec_value": showVal(j.d, v.val)})
-		}
 		k := 1
 		for ; k < j.L-1; k++ {
 			idx[k]++
@@ -921,6 +1038,15 @@ func runCJob(r *mc.Run, j cjob) {
 		if k >= j.L-1 {
 			break
 		}
+	}
+	if j.L == j.d.maxLen && j.first == len(j.alpha)-1 && !j.withBig == (j.d.maxLen == 10) && (j.d.name == "s32" || j.d.name == "s64") {
+		// the last string of the job with final byte 0x40, written out for the evidence file
+		b[j.L-1] = 0x40
+		v := specFast(j.d.N, j.d.signed, b)
+		w.rd.b, w.rd.i = b, 0
+		got, gn, gerr := j.d.dec(&w.rd)
+		r.Sample(map[string]interface{}{"part": "C", "codec": j.d.name, "bytes": hexs(b), "spec": whyName[v.why], "spec_count": v.n,
+			"impl": fmt.Sprintf("%s = (%s, %d, %v)", fnName[j.d.decFn], showVal(j.d, got), gn, gerr)})
 	}
 	nStrings.Add(n)
 }
@@ -1044,32 +1170,30 @@ func partC(r *mc.Run, cont64 []byte, contOver []byte, fullLen64 int) {
 // ---------------------------------------------------------------------------------------------
 
 func main() {
-	if pf := os.Getenv("C19_CPUPROFILE"); pf != "" { // development aid
-		f, _ := os.Create(pf)
-		pprof.StartCPUProfile(f)
-		defer pprof.StopCPUProfile()
-	}
 	r := mc.Start("C19")
 	// the functions under test allocate on every call (result slice, interface boxing); keep the
 	// collector out of the way
-	gcp := 400 // small heap = cache-hot allocation; larger heaps measured 2x slower here
-	if s := os.Getenv("C19_GCPERCENT"); s != "" {
-		fmt.Sscan(s, &gcp)
-	}
-	debug.SetGCPercent(gcp)
+	// The functions under test allocate on every call (result slice, interface boxing) and the
+	// live heap is tiny: a moderately larger heap than the 4 MB default saves collector cycles,
+	// a much larger one falls out of cache (measured: 2x slower at 256 MB).
+	debug.SetGCPercent(400)
 
 	groupsB := mc.Pick(r, []byte{0x00, 0x01, 0x3f, 0x40, 0x7f}, []byte{0x00, 0x01, 0x02, 0x3f, 0x40, 0x7e, 0x7f})
 	cont64 := mc.Pick(r, []byte{0x80, 0xbf, 0xc0, 0xff}, []byte{0x80, 0x81, 0xbf, 0xc0, 0xfe, 0xff})
 	contOver := mc.Pick(r, []byte{0x80, 0xc0, 0xff}, []byte{0x80, 0xbf, 0xc0, 0xff})
 	fullLen64 := mc.Pick(r, 5, 6)
 
-	r.Rule("A: every 32-bit value v, in order, through Encode{Uint,Int}32 (bytes = minimal reference form), the encoder's bytes then through Load*/Decode* (which values: see bounds); " +
+	r.Rule("A: 32-bit values (which: see bounds; unsigned ascending, signed 0,-1,1,-2,...) through Encode{Uint,Int}32 (bytes = minimal reference form), those bytes then through Load*/Decode* (which values: see bounds); " +
 		"B: every 64-bit value whose ten 7-bit groups come from the group alphabet, +-2^k+-{0,1,2}, each also reduced to its low 33 bits; " +
 		"C: per decoder every byte string of each length whose non-final bytes come from the position alphabet and whose final byte is 0..255, " +
 		"and every sign-fill padding of +-2^k+-{0,1}, judged by the spec uN/sN grammar. " +
 		"distinct = distinct (function, spec verdict class or minimal-encoding length, length) outcome classes observed")
-	r.Bound("partA_values_encoded", "all 2^32 through EncodeUint32 and all 2^32 through EncodeInt32")
-	r.Bound("partA_values_decoded", mc.Pick(r, fmt.Sprintf("every value whose lowest 7-bit group is in {% x} (5*2^25 values), both entry points", groupsB[:5]), "all 2^32, both entry points, plus DecodeInt33AsInt64/LoadInt64/DecodeInt64 on the s32 bytes"))
+	r.Bound("partA_values_encoded", mc.Pick(r,
+		fmt.Sprintf("u32: every value < 2^%d; s32: every value with zigzag index < 2^%d (|v| <= 2^%d); plus the structured set over the whole range: every bit pattern with at most two of its four low 7-bit groups outside {% x}, top 4 bits free", quickBits, quickBits, quickBits-1, groupsB[:5]),
+		"all 2^32 through EncodeUint32 and all 2^32 through EncodeInt32"))
+	r.Bound("partA_values_decoded", mc.Pick(r,
+		fmt.Sprintf("range part: those whose lowest 7-bit group is in {% x}; structured part: all; both entry points, DecodeInt33AsInt64 too", groupsB[:5]),
+		"all 2^32, both entry points, plus DecodeInt33AsInt64/LoadInt64/DecodeInt64 on the s32 bytes"))
 	r.Bound("partB_group_alphabet", fmt.Sprintf("% x", groupsB))
 	r.Bound("partB_all_s33_values", r.Thorough())
 	r.Bound("partC_full_alphabet", fmt.Sprintf("% x (every non-final position, lengths 1..5 for 32/33-bit, 1..%d for 64-bit)", alphaFull, fullLen64))
@@ -1093,10 +1217,16 @@ func main() {
 		partC(r, cont64, contOver, fullLen64)
 	}
 	if strings.Contains(parts, "B") {
-		partB(r, groupsB, r.Thorough())
+		partB(r, groupsB)
 	}
 	if strings.Contains(parts, "A") {
-		partA(r, r.Thorough(), groupsB)
+		partA(r, mc.Pick(r, quickBits, 32), r.Thorough(), groupsB[:5])
+		if !r.Thorough() {
+			partAStructured(r, groupsB[:5])
+		}
+	}
+	if strings.Contains(parts, "B") && r.Thorough() {
+		partB33(r)
 	}
 
 	// oracle self-consistency and vacuity
@@ -1137,6 +1267,5 @@ func main() {
 		what, rep := render(k, gwits[k])
 		r.Report(k.String(), what, rep)
 	}
-	pprof.StopCPUProfile()
 	r.Finish()
 }
